@@ -18,14 +18,31 @@ MIN_RLIMIT = 25_000_000
 WALL_CAP_MS = 180_000
 
 
+MAX_RLIMIT = 300_000_000
+RETRY_RLIMIT = 30_000_000
+
+
 def budget_for(baseline_units):
+    """deterministic budget: 20x what the obligation needed on the unchanged tree, at least 25 M
+    units (~5 s), at most 300 M (~1 min) so that a failing tree cannot stall a check for long"""
     if not baseline_units:
         return DEFAULT_RLIMIT
-    return max(MIN_RLIMIT, 50 * int(baseline_units))
+    return min(MAX_RLIMIT, max(MIN_RLIMIT, 20 * int(baseline_units)))
 
 
 class _Sub:
     pass
+
+
+def _count():
+    """z3's 'rlimit count' statistic is cumulative over the process (the rlimit *parameter* is per
+    check); read the current value with a trivial query so that consumption can be reported per
+    obligation"""
+    s = z3.Solver()
+    s.add(z3.Int("skv!probe") > 0)
+    s.check()
+    st = s.statistics()
+    return int(st.get_key_value("rlimit count")) if "rlimit count" in st.keys() else 0
 
 
 def discharge(ob, timeout_ms=None, want_model=True, rlimit=None, _split=True):
@@ -53,33 +70,32 @@ def discharge(ob, timeout_ms=None, want_model=True, rlimit=None, _split=True):
                 res, reason = "open", sub.reason
         ob.result, ob.backend, ob.seconds, ob.units, ob.model, ob.reason = res, "z3", time.time() - t, units, model, reason
         return ob
-    s = z3.Solver()
-    s.set("timeout", timeout_ms or WALL_CAP_MS)
     budget = rlimit or DEFAULT_RLIMIT
-    s.set("rlimit", budget)
-    for h in ob.hyps:
-        s.add(h)
-    s.add(z3.Not(g))
-    r = s.check()
-    if r == z3.unknown and not (rlimit and rlimit < 30_000_000):
-        # deterministic retries: other seeds often succeed on mixed real/integer obligations
-        for seed in (1, 2, 3):
-            s2 = z3.Solver()
-            s2.set("timeout", timeout_ms or WALL_CAP_MS)
-            s2.set("rlimit", budget)
-            s2.set("random_seed", seed)
-            for h in ob.hyps:
-                s2.add(h)
-            s2.add(z3.Not(g))
-            r2 = s2.check()
-            if r2 != z3.unknown:
-                r, s = r2, s2
-                break
+    # attempt schedule (deterministic): four seeds at a small budget - other seeds often succeed on
+    # mixed real/integer obligations - then one attempt at the full budget
+    small = min(budget, RETRY_RLIMIT)
+    plan = [(0, small), (1, small), (2, small), (3, small)] if not (rlimit and rlimit < MIN_RLIMIT) else [(0, budget)]
+    if budget > small:
+        plan.append((0, budget))
+    for seed, lim in plan:
+        s = z3.Solver()
+        s.set("timeout", timeout_ms or WALL_CAP_MS)
+        s.set("rlimit", lim)
+        if seed:
+            s.set("random_seed", seed)
+        for h in ob.hyps:
+            s.add(h)
+        s.add(z3.Not(g))
+        c0 = _count()
+        r = s.check()
+        budget_used = lim
+        if r != z3.unknown:
+            break
     ob.seconds = time.time() - t
     ob.backend = "z3"
     try:
         st = s.statistics()
-        ob.units = int(st.get_key_value("rlimit count")) if "rlimit count" in st.keys() else 0
+        ob.units = max(0, (int(st.get_key_value("rlimit count")) if "rlimit count" in st.keys() else c0) - c0)
     except Exception:
         ob.units = 0
     if r == z3.unsat:
@@ -91,8 +107,8 @@ def discharge(ob, timeout_ms=None, want_model=True, rlimit=None, _split=True):
     else:
         ob.result = "open"
         why = s.reason_unknown()
-        if ob.units >= budget:
-            why = "rlimit-exhausted (%d units)" % budget
+        if ob.units >= budget_used - 1000:
+            why = "rlimit-exhausted (%d units)" % budget_used
         elif "canceled" in why or "timeout" in why:
             why = "timeout"
         ob.reason = why
@@ -100,9 +116,20 @@ def discharge(ob, timeout_ms=None, want_model=True, rlimit=None, _split=True):
 
 
 def discharge_all(obs, timeout_ms=None, budgets=None):
+    """instances of one aggregated obligation (same name, different paths) are discharged until the
+    obligation is decided: after a refuted instance, or two open ones, the remaining instances are
+    not attempted (the obligation has already failed) - keeps a failing tree from burning the budget"""
     budgets = budgets or {}
+    refuted, opens = set(), {}
     for ob in obs:
+        if ob.name in refuted or opens.get(ob.name, 0) >= 2:
+            ob.result, ob.reason, ob.backend = "open", "not attempted: another instance of this obligation already failed", "skipped"
+            continue
         discharge(ob, timeout_ms, rlimit=budget_for(budgets.get(ob.name)))
+        if ob.result == "refuted":
+            refuted.add(ob.name)
+        elif ob.result != "proved":
+            opens[ob.name] = opens.get(ob.name, 0) + 1
     return obs
 
 
